@@ -62,12 +62,25 @@ func main() {
 
 func sequence(r *rep.Report, rng *prng.R) {
 	msize := rng.Pick(64, 100, 128, 255, 256, 512, 1000, 4096, 8192, 9000)
+	// one sequence in five renegotiates in mid-stream: the first k frames are read at a larger msize0,
+	// then SetMSize(msize) is called while later frames may already sit in the channel's read buffer
+	msize0, k0 := 0, 0
+	if rng.Chance(1, 5) {
+		msize0 = rng.Pick(9000, 16384, 65536)
+	}
 	nframes := rng.Range(1, 7)
 	var stream []byte
 	var bounds []int
 	var exp []expect
 	cutLast := rng.Chance(1, 5)
+	if msize0 > 0 {
+		k0 = rng.Range(1, nframes)
+	}
 	for f := 0; f < nframes; f++ {
+		final := msize
+		if f < k0 {
+			msize = msize0 // this frame is read (and judged) under the earlier, larger msize
+		}
 		kind := rng.Intn(10)
 		t := wiregen.AllTypes[rng.Intn(len(wiregen.AllTypes))]
 		fc := wiregen.GenFcall(rng, t, msize/2)
@@ -129,6 +142,7 @@ func sequence(r *rep.Report, rng *prng.R) {
 			exp = append(exp, expect{kind: "error", what: "size field below 4"})
 		}
 		bounds = append(bounds, len(stream))
+		msize = final
 	}
 	if cutLast && len(bounds) > 0 {
 		start := 0
@@ -149,22 +163,32 @@ func sequence(r *rep.Report, rng *prng.R) {
 	chunks := lconn.Chunk(append([]byte{}, stream...), mode, bounds, func() int { return rng.Pick(1, 2, 3, 5, 7, 13, 64, 500) })
 	conn := lconn.NewScript(chunks)
 	var ch p9p.Channel
-	switch rng.Intn(3) { // the msize is reached directly or through SetMSize, as negotiation does
-	case 0:
-		ch = p9p.NewChannel(conn, msize)
-	case 1:
-		ch = p9p.NewChannel(conn, msize+rng.Pick(1, 4, 100, 65536))
-		ch.SetMSize(msize)
-	default:
-		ch = p9p.NewChannel(conn, msize/2)
-		ch.SetMSize(msize)
+	if msize0 > 0 {
+		ch = p9p.NewChannel(conn, msize0)
+	} else {
+		switch rng.Intn(3) { // the msize is reached directly or through SetMSize, as negotiation does
+		case 0:
+			ch = p9p.NewChannel(conn, msize)
+		case 1:
+			ch = p9p.NewChannel(conn, msize+rng.Pick(1, 4, 100, 65536))
+			ch.SetMSize(msize)
+		default:
+			ch = p9p.NewChannel(conn, msize/2)
+			ch.SetMSize(msize)
+		}
 	}
 	reads := nframes + 2
 	c := sx.L(sx.Sym("read"), sx.I(int64(msize)), sx.I(int64(reads)), sx.B(stream), sx.I(int64(mode)))
+	if msize0 > 0 {
+		c = sx.L(sx.Sym("read2"), sx.I(int64(msize0)), sx.I(int64(k0)), sx.I(int64(msize)), sx.I(int64(reads-k0)), sx.B(stream), sx.I(int64(mode)))
+	}
 	var obs []sx.S
 	var got []string
 	panicked := false
 	for i := 0; i < reads && !panicked; i++ {
+		if msize0 > 0 && i == k0 {
+			ch.SetMSize(msize)
+		}
 		var fc p9p.Fcall
 		var err error
 		func() {
